@@ -199,6 +199,22 @@ Definition recv_data_from_remote {S O : Type} (handle : S -> frame -> S * O)
   | Panic => (st, RecvCrash)
   end.
 
+(* deplex: the receive loop feeds every message read from a connection to recvDataFromRemote
+   and only logs its error; a crash ends the process (no recover() in deplex) *)
+Fixpoint recv_all {S O : Type} (handle : S -> frame -> S * O) (c : option aead) (key : list N)
+  (st : S) (datas : list (list N)) : option S :=
+  match datas with
+  | [] => Some st
+  | d :: rest =>
+      match recv_data_from_remote handle c key st d with
+      | (_, RecvCrash) => None
+      | (st', _) => recv_all handle c key st' rest
+      end
+  end.
+
+Definition accepted (c : option aead) (key data : list N) : bool :=
+  match decode_with c key data with Ok _ => true | _ => false end.
+
 (* ---- driver support: recover the random inputs of an accepted message --------------- *)
 (* Some (f, padLen, rnd) such that an honest encoder with these inputs produced msg
    (the AEAD overwrites the tag part of rnd, zeros stand in for it) *)
